@@ -19,7 +19,10 @@ Proof.
   - rewrite E2. split; [|lia]. rewrite E5.
     intros k Hk. unfold out_seqs in Hk. cbn [flat_map snd frame_seqs filter map fst N.eqb P_seq] in Hk.
     cbn in Hk. destruct Hk as [<-|Hk]; [lia|].
-    eapply fanout_data_shown; [|exact Hk]. lia.
+    fold (out_seqs (fanout_data (h_ca (publish f s c n sid u content noecho)) (if noecho then sid else 0%N) (Data (c_lastid c + 1) u content)
+                    ++ push_out (h_ca (publish f s c n sid u content noecho)) (c_lastid c + 1) u)) in Hk.
+    revert k Hk. apply (shown_le_app (c_lastid c + 1)); [apply fanout_data_shown; lia|].
+    unfold push_out. destruct (push_rcpt _); intros k Hk; cbn in Hk; intuition; subst; lia.
 Qed.
 
 Section StepShown.
